@@ -338,6 +338,36 @@ def stateless(R, B, rng):
     for _ in range(3):
         b.order()
     R.check(a.to_boc(True, True, True) == boc1, 'to_boc-depends-on-history', 'to_boc differs after unrelated calls')
+    # every argument of to_boc is part of the call: the same cell serialised with other option / flag values in between, compared with a fresh equal cell
+    fresh = lambda: B.Cell.one_from_boc(rc.encode_boc([bridge.from_lib(a)]))
+    argsets = [(False, False, False, 0), (False, False, False, 1), (True, True, False, 0), (False, False, False, 2), (True, True, True, 3), (False, False, False, 0),
+               (True, False, False, 0), (True, False, False, 1)]
+    for args in argsets + argsets[::-1]:
+        st1, x = mon.call(a.to_boc, *args)
+        st2, y = mon.call(fresh().to_boc, *args)
+        R.count('to_boc_argument_sequences')
+        R.check(st1 == st2 and (st1 == 'exc' or x == y), 'to_boc-depends-on-history', f'to_boc{args} on a cell that was serialised before with other arguments differs from to_boc{args} on a fresh equal cell',
+                {'args': list(args)})
+    # dictionary parsing: a dictionary whose root label is non-empty (single key / common prefix with 1 bits), then another one, then the first again
+    from pytoniq_core.boc.hashmap.hashmap import HashMap
+    from pytoniq_core.boc.hashmap.parse import parse_hashmap
+    maps = [(8, {0xFF: 1}), (8, {3: 7, 200: 9}), (16, {0xF0F0: 2, 0xF0F1: 3}), (8, {1: 1}), (16, {0xFFFF: 5}), (4, {9: 1, 10: 2, 11: 3})]
+    cells = []
+    for w, m in maps:
+        hm = HashMap(w).with_uint_values(8)
+        for k, v in m.items():
+            hm.set_int_key(k, v)
+        cells.append((w, m, hm.serialize()))
+    for rnd in range(2):
+        for w, m, cell in cells + cells[::-1]:
+            for pname, f in (('parse_hashmap', lambda: {int(k, 2): v.load_uint(8) for k, v in parse_hashmap(cell.begin_parse(), w).items()}),
+                             ('HashMap.parse', lambda: HashMap.parse(cell.begin_parse(), w, value_deserializer=lambda s: s.load_uint(8))),
+                             ('load_dict', lambda: B.Builder().store_dict(cell).end_cell().begin_parse().load_dict(w, value_deserializer=lambda s: s.load_uint(8))),
+                             ('from_cell', lambda: {k: v.load_uint(8) for k, v in HashMap.from_cell(cell, w).map.items()})):
+                st, got = mon.call(f)
+                R.count('dict_parse_sequences')
+                R.check(st == 'ok' and dict(got) == m, f'dict-parse-depends-on-history', f'{pname} of a {w}-bit dictionary returned {mon.srepr(got, 80)} after other dictionaries were parsed; '
+                        f'expected {m}', {'width': w, 'map': {str(k): v for k, v in m.items()}, 'parser': pname})
     # VM stack: serialising twice, caller-owned values untouched
     from pytoniq_core.tlb.vm_stack import VmStack, VmTuple
     inner = VmTuple([1, 2, 3])
@@ -369,6 +399,8 @@ def run(R):
         R.count('histories')
     stateless(R, B, rng)
     R.floor('registry_validations', 500)
+    R.floor('dict_parse_sequences', 50)
+    R.floor('to_boc_argument_sequences', 10)
     R.floor('fresh_clone_comparisons', 100)
     R.floor('derived_isolation_checks', 1000)
     R.floor('order_postconditions', 20)
